@@ -44,6 +44,10 @@ class SrcBoom(Exception):
     pass
 
 
+class SrcBaseBoom(BaseException):
+    pass
+
+
 class PlainIter:
     def __init__(self, g):
         self.g = g
@@ -62,7 +66,10 @@ def run(case, max_steps=60000):
     n = len(elems)
     f = src.get('fail_at')
     d = src.get('delay', 0)
-    out = {'got': [], 'exc': None, 'ticks': [], 'finished_at': None, 'boom': SrcBoom('source failed'),
+    fk = src.get('fail_kind', 'exc')
+    boom = aio.CancelledError('source cancelled') if fk == 'cancel' else SrcBaseBoom('source failed') if fk == 'base' \
+        else SrcBoom('source failed')
+    out = {'got': [], 'exc': None, 'ticks': [], 'finished_at': None, 'boom': boom,
            'produced': 0, 'started': None}
     with World(schedule=case['sched'], trace=TRACE, modules=(A,), max_steps=max_steps) as w:
         sim = w.sim
